@@ -796,6 +796,21 @@ class Driver:
         pred.unpredicted = True
         return {"kind": "cmdline", "path": "", "raised": exc, "label": None, "pred": pred, "before": before, "listed": False}
 
+    def _op_cmdline_ns(self, op):
+        """cmdline_args_override with a hand-made Namespace: known options, options a (dynamic or fixed) section
+        does not declare, unknown top-level destinations.  The effect on the configuration is not predicted."""
+        import argparse
+
+        cc = self.cc
+        before = self.snapshot()
+        ns = argparse.Namespace()
+        for dest, value in op["items"]:
+            setattr(ns, dest, value)
+        exc = self._run(lambda: cc.cmdline_args_override(self.cfg, ns, ignore=op.get("ignore")))
+        pred = Prediction(None, None)
+        pred.unpredicted = True
+        return {"kind": "cmdline-ns", "path": "", "raised": exc, "label": None, "pred": pred, "before": before, "listed": False}
+
     def _op_reset(self, op):
         cc, cfg = self.cc, self.cfg
         path = self.concrete(op["path"])
